@@ -25,6 +25,8 @@ pub const PROP: &str = "C17";
 fn make_plan(src: &str, base: u64, i: u64) -> SPlan {
     if src == "sys" {
         splan::systematic(i)
+    } else if let Some(ops) = src.strip_prefix("soak:") {
+        splan::soak(i, ops.parse().unwrap_or(1000))
     } else {
         splan::generate(crate::run_seed(base, i))
     }
@@ -345,6 +347,15 @@ fn reduce_once(plans: &[SPlan], accept: &mut dyn FnMut(&[SPlan]) -> bool) -> Opt
                 }
             }
         }
+        if p.repeat > 1 {
+            for r in [1, p.repeat / 2, p.repeat - p.repeat / 4, p.repeat - 1] {
+                if r < p.repeat && r >= 1 {
+                    let mut q = p.clone();
+                    q.repeat = r;
+                    put!(q);
+                }
+            }
+        }
         if p.alloc_seams {
             let mut q = p.clone();
             q.alloc_seams = false;
@@ -427,6 +438,9 @@ fn batch(args: &[String]) -> i32 {
     if src == "sys" {
         runs = splan::sys_total();
     }
+    if src.starts_with("soak:") {
+        runs = splan::soak_total(); // one long single-thread history per type, each in a process of its own
+    }
     let jobs: u64 = arg(args, "--jobs").and_then(|s| s.parse().ok()).unwrap_or(16).max(1);
     let tier = arg(args, "--tier").unwrap_or_else(|| "quick".into());
     let part = arg(args, "--part").unwrap_or_else(|| "part.json".into());
@@ -460,7 +474,13 @@ fn batch(args: &[String]) -> i32 {
             None => break,
         }
     }
-    let recheck_n = if arg(args, "--chunk").is_some() { runs.min(300) } else { runs.min(2000) };
+    let recheck_n = if src.starts_with("soak:") {
+        1
+    } else if arg(args, "--chunk").is_some() {
+        runs.min(300)
+    } else {
+        runs.min(2000)
+    };
     let mut total = SRunStats::default();
     let (mut nruns, mut nontrivial_runs, mut fault_then) = (0u64, 0u64, 0u64);
     let mut traces = BTreeSet::new();
@@ -535,7 +555,9 @@ fn batch(args: &[String]) -> i32 {
         let final_run = exec_child_full(&plans);
         let trace = final_run.as_ref().map(|r| r.log.clone()).unwrap_or_default();
         let final_v = final_run.and_then(|r| r.violations.into_iter().find(|x| x.kind == v.kind)).unwrap_or(v.clone());
-        let path = if src == "sys" {
+        let path = if src.starts_with("soak:") {
+            format!("{}/{}-{}-soak-{}.json", replay_dir, PROP, amt::BACKEND, idx)
+        } else if src == "sys" {
             format!("{}/{}-{}-systematic-{}.json", replay_dir, PROP, amt::BACKEND, idx)
         } else {
             format!("{}/{}-{}-seed{}-run{}.json", replay_dir, PROP, amt::BACKEND, seed, idx)
@@ -608,7 +630,7 @@ fn batch(args: &[String]) -> i32 {
     std::fs::write(&part, serde_json::to_string_pretty(&partv).unwrap()).expect("write part");
     println!(
         "[{} {}{}] runs={} ops={} judged={} seams={} switches_in_op={} faults(ser err/panic, de err/panic/eof, nested)={}/{} {}/{}/{} {} distinct_nontrivial_runs={} wall={:.1}s",
-        PROP, amt::BACKEND, if src == "sys" { " systematic" } else { "" }, nruns, total.ops, total.judged, total.seams, total.switches_inside_op,
+        PROP, amt::BACKEND, if src == "sys" { " systematic" } else if src.starts_with("soak:") { " soak" } else { "" }, nruns, total.ops, total.judged, total.seams, total.switches_inside_op,
         total.ser_error_fired, total.ser_panic_fired, total.de_error_fired, total.de_panic_fired, total.de_eof_fired, total.nested_fired,
         traces.len(), wall
     );
